@@ -81,23 +81,7 @@ def shards(tier, seed):
     return out
 
 
-_TRAJ = {}
-
-
-def vib_traj(A, L, M, dt):
-    key = (A, L, np.asarray(M).tobytes(), dt)
-    if key not in _TRAJ:
-        if len(_TRAJ) > 200:
-            _TRAJ.clear()
-        Minv = np.linalg.inv(np.asarray(M))
-        coords = np.zeros((L, A, 3))
-        for t in range(L):
-            for a in range(A):
-                base = np.array([0.2 + 0.3 * a, 0.4, 0.6]) @ np.asarray(M)
-                amp = 0.1 + 0.05 * ((t * 7 + a * 3) % 4)
-                coords[t, a] = (base + amp * alphabets.DIRS[(3 * t + 5 * a) % 12]) @ Minv
-        _TRAJ[key] = coords
-    return concretise.make_trajectory(_TRAJ[key], ['Li'] * A, M, time_step=dt, temperature=400.0)
+vib_traj = concretise.vib_traj
 
 
 def close(a, b, rtol=1e-9):
